@@ -187,6 +187,24 @@ fn check_observer(env: &Env, op: &Op) -> Result<(), Failure> {
     // reference 1: the independent model
     let pred = predict(&env.model, op);
     judge(&pred.expect, &e).map_err(|m| mk_fail(op, format!("vs the folder walked with std::fs: {}", m)))?;
+    // for files: a handle that was moved first must deliver the remainder, like the physical one
+    if let (Op::Read(path), Some(Node::File(bytes))) = (op, env.model.get(op.target())) {
+        use std::io::{Read, Seek, SeekFrom};
+        let run = |root: &VfsPath| -> Result<(Vec<u8>, Vec<u8>), String> {
+            let mut h = at(root, path).map_err(|e| e.to_string())?.open_file().map_err(|e| e.to_string())?;
+            let mut head = vec![0u8; bytes.len().min(3)];
+            h.read_exact(&mut head).map_err(|e| e.to_string())?;
+            h.seek(SeekFrom::Start((bytes.len() / 2) as u64)).map_err(|e| e.to_string())?;
+            let mut rest = vec![];
+            h.read_to_end(&mut rest).map_err(|e| e.to_string())?;
+            Ok((head, rest))
+        };
+        let a = guarded(|| run(&env.emb)).map_err(|m| mk_fail(op, format!("handle use panicked: {}", m)))?;
+        let b = run(&env.phys);
+        if a != b {
+            return Err(mk_fail(op, format!("a read handle that read 3 bytes, seeked to the middle and read to the end delivers {:?} but the PhysicalFS handle delivers {:?}", a.as_ref().map(|(h, r)| (h.len(), r.len())), b.as_ref().map(|(h, r)| (h.len(), r.len())))));
+        }
+    }
     // reference 2: PhysicalFS on the same folder
     match (&e, &p) {
         (Outcome::Ok(a), Outcome::Ok(b)) => {
